@@ -21,6 +21,7 @@ var errFault = errors.New("harness: injected fault")
 // schedReader delivers a byte string according to a nominal schedule of chunk sizes (0 = a zero-length read).
 // It records the effective schedule (what each Read call actually returned).
 type schedReader struct {
+	orig    []byte // for Seek(0, io.SeekStart): the teletext reader rewinds after finding the PID
 	data    []byte
 	sizes   []int // nominal sizes; when exhausted the rest is delivered in one go
 	i       int
@@ -29,6 +30,16 @@ type schedReader struct {
 	eff     []int
 	done    bool
 	pending int // remainder of the current nominal chunk that did not fit
+}
+
+// Seek supports rewinding to the start only (what go-astits' Rewind does)
+func (r *schedReader) Seek(off int64, whence int) (int64, error) {
+	if off != 0 || whence != io.SeekStart || r.orig == nil {
+		return 0, errors.New("harness: unsupported seek")
+	}
+	r.data = append([]byte(nil), r.orig...)
+	r.done, r.pending = false, 0
+	return 0, nil
 }
 
 func (r *schedReader) Read(p []byte) (int, error) {
@@ -165,6 +176,8 @@ func readWith(format string, rd io.Reader) (s *astisub.Subtitles, err error) {
 		return astisub.ReadFromSTL(rd, astisub.STLOptions{})
 	case "ttml":
 		return astisub.ReadFromTTML(rd)
+	case "ts":
+		return astisub.ReadFromTeletext(rd, astisub.TeletextOptions{})
 	}
 	panic("format " + format)
 }
@@ -209,8 +222,17 @@ func sampleDocs() map[string][][]byte {
 			o[ext] = append(o[ext], b)
 		}
 	}
+	// transport streams carrying teletext: built by the harness (the repository has no sample)
+	if ttSample != nil {
+		for seed := uint64(0); seed < 3; seed++ {
+			o["ts"] = append(o["ts"], ttSample(seed))
+		}
+	}
 	return o
 }
+
+// ttSample is set by teletext.go
+var ttSample func(seed uint64) []byte
 
 func init() {
 	// lib.scanner: the package's line scanner under a schedule; output = effective schedule, tokens, error kind
@@ -295,7 +317,7 @@ func init() {
 	streams["io.sched"] = stream{exec: func(a []string) string {
 		doc := decBytes(a[1])
 		base, berr := readWith(a[0], bytes.NewReader(doc))
-		rd := &schedReader{data: append([]byte(nil), doc...), sizes: decInts(a[3]), end: a[2], limit: -1}
+		rd := &schedReader{orig: doc, data: append([]byte(nil), doc...), sizes: decInts(a[3]), end: a[2], limit: -1}
 		got, gerr := readWith(a[0], rd)
 		if errClass(berr) != errClass(gerr) {
 			return fmt.Sprintf("diff class %s vs %s", errClass(berr), errClass(gerr))
@@ -373,7 +395,7 @@ func init() {
 	streams["io.fault"] = stream{exec: func(a []string) string {
 		doc := decBytes(a[1])
 		k := int(atoi64(a[2]))
-		rd := &schedReader{data: append([]byte(nil), doc...), sizes: decInts(a[4]), end: a[3], limit: k}
+		rd := &schedReader{orig: doc, data: append([]byte(nil), doc...), sizes: decInts(a[4]), end: a[3], limit: k}
 		_, err := readWith(a[0], rd)
 		return errClass(err)
 	}, gen: func(c *ctx) {
